@@ -106,7 +106,7 @@ func runC01(ctx *core.Ctx) {
 		{{K: spec.KNew}, {K: spec.KAllowElements, Names: []string{"html", "head", "body", "title", "p", "b"}}, {K: spec.KAllowAttrs, Attrs: []string{"lang", "id"}, Scope: "global"}},
 		{{K: spec.KNew}, {K: spec.KAllowElements, Names: []string{"html", "head", "body", "title", "p", "b", "svg", "math"}}, {K: spec.KAllowNoAttrs, Scope: "els", Names: []string{"html", "svg", "math"}}, {K: spec.KComments}},
 		{{K: spec.KNew}, {K: spec.KAllowNoAttrs, Scope: "match", ElRe: `^[a-z]+$`}, {K: spec.KComments}, {K: spec.KSwitch, Names: []string{spec.SwAddSpaces}, B: true}}}
-	decls := []string{"<!DOCTYPE html>", "<!doctype html>", "<!DOCTYPE HTML>", "<!DOCTYPE html >", "<!DOCTYPE  html>", "<!DOCTYPE html PUBLIC \"-//W3C//DTD XHTML 1.0 Strict//EN\" \"http://www.w3.org/TR/xhtml1/DTD/xhtml1-strict.dtd\">",
+	decls := []string{"<![if !IE]&gt;&lt;script&gt;alert(1)&lt;/script&gt;<![endif]>", "<![if &gt;&lt;img src=x&gt;]>", "<!DOCTYPE html &quot;&gt;&lt;script&gt;alert(1)&lt;/script&gt;>", "<!DOCTYPE html&gt;&lt;b&gt;>", "<?pi &gt;&lt;b&gt;x?>", "<!DOCTYPE html>", "<!doctype html>", "<!DOCTYPE HTML>", "<!DOCTYPE html >", "<!DOCTYPE  html>", "<!DOCTYPE html PUBLIC \"-//W3C//DTD XHTML 1.0 Strict//EN\" \"http://www.w3.org/TR/xhtml1/DTD/xhtml1-strict.dtd\">",
 		"<!DOCTYPE html SYSTEM \"about:legacy-compat\">", "<!DOCTYPE>", "<!DOCTYPE svg>", "<!DOCTYPE math>", "<!DOCTYPE html5>", "<!DOCTYPE htm>", "<?xml version=\"1.0\"?>", "<![CDATA[x]]>", "<!ELEMENT x>", "<!-- c -->", "<!>", "<!DOCTYPE html [<!ENTITY x \"y\">]>", "\ufeff<!DOCTYPE html>", "\n<!DOCTYPE html>\n"}
 	ctx.Run("whole-documents", len(whole)*ctx.N(40, 400), func(cs *core.Case) {
 		env := NewEnv(whole[cs.Index%len(whole)])
